@@ -130,6 +130,9 @@ DqRemove(s, id) ==
   IN IF s1.dq = {} /\ s.dq # {} /\ s2.dqW THEN [Wake(s2, D) EXCEPT !.dqW = FALSE] ELSE s2
 DqClear(s) == [s EXCEPT !.dq = {}, !.dly = NoSleep, !.dqS = FALSE, !.dqx = <<>>, !.wnow = 0]
 
+(* notable for schedule export: capacity comes back (reply / cancellation / expiry) while a request is queued behind the limit *)
+FreesQueued(s, how) == IF s.pend # <<>> /\ Cardinality(s.infl) >= MaxInFlight THEN Tag(s, how \o "-frees-queued") ELSE s
+
 (* ---- oneshot: the dispatch completes call c with value v *)
 OneSend(s, c, v) ==
   IF s.call[c].closed \/ s.call[c].st \in {"done", "dropped", "idle"}
@@ -223,7 +226,7 @@ D_Read(s) ==
         s2 == Ob(s1, OHanded(s1.o, [id |-> r[1], ok |-> r[3], body |-> IF r[3] THEN Body(r[1], r[2]) ELSE EBody(r[1], r[2])]))
         s3 == IF r[1] \in InflIds(s2)
                 THEN LET c == CallOfId(s2, r[1])
-                         t1 == [s2 EXCEPT !.infl = {p \in @ : p[1] # r[1]}]
+                         t1 == [FreesQueued(s2, "reply") EXCEPT !.infl = {p \in @ : p[1] # r[1]}]
                          t2 == DqRemove(t1, r[1])
                      IN OneSend(t2, c, <<IF r[3] THEN "ok" ELSE "server", r[1], r[2]>>)
                 ELSE Tag(s2, "resp-unknown")
@@ -296,7 +299,7 @@ D_WCan2(s) ==
         s1 == [s EXCEPT !.canc = Tail(@)]
     IN IF id \in InflIds(s1) THEN
          LET c == CallOfId(s1, id)
-             s2 == DqRemove([s1 EXCEPT !.infl = {p \in @ : p[1] # id}], id)
+             s2 == DqRemove([FreesQueued(s1, "cancel") EXCEPT !.infl = {p \in @ : p[1] # id}], id)
          IN IF FaultHits(s2, "send") THEN
               LET s3 == SinkLog(ClearFault(s2), "send", "err") IN
               SetTerm(Ob(s3, OFault(s3.o, "send", "cancel", -1)), "write")
@@ -319,7 +322,7 @@ D_Exp(s) ==
         LET t1 == [t EXCEPT !.dq = {p \in @ : p[1] # id}]
             t2 == IF id \in InflIds(t1)
                     THEN LET c == CallOfId(t1, id) IN
-                         OneSend([t1 EXCEPT !.infl = {q \in @ : q[1] # id}], c, <<"deadline", 0, 0>>)
+                         OneSend([FreesQueued(t1, "expiry") EXCEPT !.infl = {q \in @ : q[1] # id}], c, <<"deadline", 0, 0>>)
                     ELSE t1
         IN Goto(Tag([t2 EXCEPT !.wr = "some"], "expired"), "match")
   IN
